@@ -165,7 +165,7 @@ class Polyline2D(Base2DIn2D):
                 skip += 1
         new_vertices.append(self[-1])  # last vertex is always ok
         _new_poly = Polyline2D(new_vertices)
-        self._transfer_properties(_new_poly)
+        _new_poly._interpolated = self._interpolated  # the length may have changed
         return _new_poly
 
     def reverse(self):
